@@ -748,7 +748,9 @@ func (db *DB) searchAll(o Object, field, operator string, value interface{}, con
 		}
 	}
 
-	for obj, err := iter.next(); err == nil && err != ErrEOI; obj, err = iter.next() {
+	// err must be the one tested after the loop, a read error would be lost
+	var obj Object
+	for obj, err = iter.next(); err == nil; obj, err = iter.next() {
 		var test *indexedField
 		var value interface{}
 		var ok bool
